@@ -26,6 +26,9 @@ type PSlide struct {
 	Notes     string     // speaker notes ("" = no notes part)
 	NotesPart string     // package path of the notes part
 	Missing   bool       // declared, but the part is not written
+	// RawShapes is written verbatim into the shape tree after the other shapes
+	// (complete <p:sp> / <p:graphicFrame> elements)
+	RawShapes string
 }
 
 // PDeck is a whole package.
@@ -122,6 +125,7 @@ func pSlideXML(s *PSlide) []byte {
 		sb.WriteString(pShape(id, "Inner", "", s.Grouped, 0))
 		sb.WriteString(`</p:grpSp>`)
 	}
+	sb.WriteString(s.RawShapes)
 	sb.WriteString(`</p:spTree></p:cSld><p:clrMapOvr><a:masterClrMapping/></p:clrMapOvr></p:sld>`)
 	return []byte(sb.String())
 }
